@@ -205,6 +205,17 @@ CHECKS = {
             "Snapshots are taken with the library's own accessors; dropout excluded; RNG reseeded "
             "per mutator so that twins are comparable under Gumbel sampling.",
             "DESIGN.md 4/C18"),
+    'C17': ("round-trip testing over Hypothesis-generated training histories: state_dict -> "
+            "torch.save/load -> fresh wrapper -> strict load -> observational equality",
+            "Generated models of the three methods with histories of optimizer steps (SGD/Adam on "
+            "all trainable parameters), option changes and mode switches; the checkpoint is loaded "
+            "(strict) into a wrapper freshly built from the pristine seed with the same constructor "
+            "arguments and only the Python-level options re-applied; training-mode and eval-mode "
+            "outputs, all cost values, summary and the exported network (structure + output, or the "
+            "same exception) must be bit-identical to the original's.",
+            "Checkpoint positions stand in for crash points; the MPS temperature must come back from "
+            "the state_dict; runs that diverge to non-finite parameters are discarded and counted.",
+            "DESIGN.md 4/C17"),
 }
 
 NOT_YET = "check not built yet in this session; planned with property-based testing per DESIGN.md section 4"
